@@ -16,7 +16,7 @@ type TreeOpts struct {
 	Keys       []string // pool for keys (nil = TreeKeys)
 	NoFloat    bool
 	NoNil      bool
-	DeepOK     bool // occasionally nest to depth 40
+	DeepOK     bool // occasionally nest to a threshold depth (40 ... 257)
 	RandStr    bool // also draw random strings
 }
 
@@ -84,11 +84,38 @@ func Tree(t *rapid.T, o TreeOpts) any {
 		o.MaxMembers = 5
 	}
 	d := o.MaxDepth
-	if o.DeepOK && rapid.IntRange(0, 60).Draw(t, "deep") == 0 {
-		d = 40
-		o.MaxMembers = 1
+	if o.DeepOK && rapid.IntRange(0, 40).Draw(t, "deep") == 0 {
+		return deepTree(t, o)
 	}
 	return tree(t, o, d)
+}
+
+// deepDepths: around the thresholds where writers run out of indentation (the
+// indentation strings hold 128 spaces / tabs) or switch to flat output.
+var deepDepths = []int{40, 62, 63, 64, 65, 126, 127, 128, 129, 130, 131, 200, 257}
+
+// deepTree nests single-member containers to a threshold depth (plus or minus a little)
+// around a small container with several members, so that separators matter at the bottom.
+func deepTree(t *rapid.T, o TreeOpts) any {
+	d := rapid.SampledFrom(deepDepths).Draw(t, "deepdepth") + rapid.IntRange(-1, 1).Draw(t, "deepdelta")
+	var v any
+	switch rapid.IntRange(0, 2).Draw(t, "deepleaf") {
+	case 0:
+		v = []any{"ab", int64(1), int64(2)}
+	case 1:
+		v = map[string]any{"a": int64(1), "b": "x", "c": []any{"p", "q"}}
+	default:
+		v = []any{map[string]any{"k": "v", "l": "w"}, "s", "t"}
+	}
+	arrays := rapid.IntRange(0, 2).Draw(t, "deepkind")
+	for i := 0; i < d; i++ {
+		if arrays == 0 || (arrays == 2 && i%2 == 0) {
+			v = []any{v}
+		} else {
+			v = map[string]any{"k": v}
+		}
+	}
+	return v
 }
 
 // Scalar draws a scalar value.
